@@ -33,8 +33,9 @@ PROPERTY = "C12"
 A = "CC(=O)OCC>>CC(=O)O"          # mcs-based, confidence 0.156
 B = "CCO>>CC=O"                   # rule-based
 C = "CC(=O)O.CCO>>CC(=O)OCC.O"    # input-balanced
+AM = "[CH3:1][C:2](=[O:3])[O:4][CH2:5][CH3:6].[OH2:7]>>[CH3:1][C:2](=[O:3])[OH:4].[CH3:6][CH2:5][OH:7]"  # mapped, balanced
 INPUTS = {
-    "AB": [A, B], "BA": [B, A], "A": [A], "ABC": [A, B, C],
+    "AB": [A, B], "BA": [B, A], "A": [A], "ABC": [A, B, C], "M": [AM, B],
 }
 # rows that carry two reaction columns; the configured column decides which one is balanced
 TWO_COL = {
@@ -48,6 +49,7 @@ CFGS = {
     # two thresholds on opposite sides of the confidence of reaction A that agree in their
     # first three decimals (filled in lazily from the observed confidence)
     "t0ns": {"threshold": 0, "col": "reaction", "nostats": True},   # the caller passes no stats dict
+    "noaam": {"threshold": 0, "col": "reaction", "remove_aam": False},  # atom maps kept (attribute, no constructor argument)
     "tc": {"threshold": None, "col": "reaction", "offset": 0.0},
     "tc+": {"threshold": None, "col": "reaction", "offset": 0.0004},
 }
@@ -81,6 +83,9 @@ def run_ops(tier):
         for i in ("A", "AB"):
             for bs in (None, 1):
                 ops.append(("run", c, i, bs))
+    for c in ("noaam", "t0"):
+        for bs in (None, 1):
+            ops.append(("run", c, "M", bs))
     return ops
 
 
@@ -327,6 +332,7 @@ def execute(state, op, want_log=False):
                 f.write(text.encode("latin-1"))
         b = _balancer(cfg["col"])
         b.confidence_threshold = cfg["threshold"]
+        b.remove_aam = cfg.get("remove_aam", True)
         b.cache, b.cache_dir = True, cdir
         stats, rows, raised = {}, None, None
         sink = io.StringIO()
@@ -365,6 +371,7 @@ def reference(op):
         cfg = cfg_of(cfg_name)
         b = _balancer(cfg["col"])
         b.confidence_threshold = cfg["threshold"]
+        b.remove_aam = cfg.get("remove_aam", True)
         b.cache, b.cache_dir = False, None
         stats = {}
         sink = io.StringIO()
@@ -497,7 +504,7 @@ def run(tier, seed):
         "distinct_nontrivial": len(seen),
         "rule": "BFS over cache-directory contents: all crash-free histories of <= 3 runs over {} run operations "
                 "(3 thresholds x 4 inputs x batch sizes None/1/2, two thresholds 0.0004 apart on either side of an observed "
-                "confidence, runs without a stats argument, two-column rows under two column configurations); crashes: every run from the empty cache{} killed after every prefix of its recorded "
+                "confidence, runs without a stats argument, atom-map removal switched off on a mapped input, two-column rows under two column configurations); crashes: every run from the empty cache{} killed after every prefix of its recorded "
                 "file effects and, inside each written file, at every {} byte plus the first/last 3 bytes{}; each crash "
                 "state is followed by every run operation{}.  Every run transition executes the real rebalance and "
                 "is compared with the uncached run.".format(
